@@ -141,7 +141,7 @@ def judge_framing(chk, c, o):
     tag = "%s %s" % (o["sigs"], texts)
     for side in ("map", "enc", "dec", "dec_spec"):
         if side in o and "panic" in o[side]:
-            chk.report("panic:%s:%s" % (side, o[side]["panic"]["loc"].replace("/repo/", "")), "%s panics on %s: %s" % (side, tag, o[side]["panic"]["msg"]), rep)
+            chk.report("panic:%s:%s" % (side, lib.norm_loc(o[side]["panic"]["loc"])), "%s panics on %s: %s" % (side, tag, o[side]["panic"]["msg"]), rep)
             return
     if "ok" not in o["map"]:
         chk.report("signature-rejected:%s" % o["sigs"][0].split("(")[0], "valid string signature rejected: %s %s" % (o["sigs"], o["map"]["err"]["errors"][:1]), rep)
@@ -178,7 +178,7 @@ def judge_contract(chk, case, cls, o, in_table):
     tag = "%s %s" % (o["sigs"], json.dumps(texts, ensure_ascii=False))
     for side in ("map", "enc", "dec"):
         if side in o and "panic" in o[side]:
-            chk.report("panic:%s:%s" % (side, o[side]["panic"]["loc"].replace("/repo/", "")), "%s panics on %s: %s" % (side, tag, o[side]["panic"]["msg"]), rep)
+            chk.report("panic:%s:%s" % (side, lib.norm_loc(o[side]["panic"]["loc"])), "%s panics on %s: %s" % (side, tag, o[side]["panic"]["msg"]), rep)
             return None
     if "ok" not in o["map"]:
         chk.report("signature-rejected:sweep", "string signature rejected: %s" % o["sigs"], rep)
